@@ -291,3 +291,59 @@ Proof.
 Qed.
 Lemma parse_perms_returns s : Returns (parse_perms s).
 Proof. split; [apply parse_perms_np|apply parse_perms_nf]. Qed.
+
+(* ---- the include chain of ImageConfiguration.Load ------------------------------------------- *)
+Lemma load_chain_self_diverges p fuel : p <> "" -> load_chain fuel [(p, p)] p = OutOfFuel.
+Proof.
+  intro H. induction fuel as [|f IH]; [reflexivity|]. cbn [load_chain alookup]. rewrite String.eqb_refl.
+  apply String.eqb_neq in H. rewrite H, IH. reflexivity.
+Qed.
+Lemma load_chain_two_diverges fuel : load_chain fuel [("a", "b"); ("b", "a")] "a" = OutOfFuel /\ load_chain fuel [("a", "b"); ("b", "a")] "b" = OutOfFuel.
+Proof.
+  induction fuel as [|f [IHa IHb]]; [split; reflexivity|]. split.
+  - change (load_chain (S f) [("a", "b"); ("b", "a")] "a") with (do r <- load_chain f [("a", "b"); ("b", "a")] "b"; Ok ("a" :: r)). rewrite IHb. reflexivity.
+  - change (load_chain (S f) [("a", "b"); ("b", "a")] "b") with (do r <- load_chain f [("a", "b"); ("b", "a")] "a"; Ok ("b" :: r)). rewrite IHa. reflexivity.
+Qed.
+Lemma alookup_key {A} k (m : list (string * A)) v : alookup k m = Some v -> In k (map fst m).
+Proof.
+  induction m as [|[k' v'] m IH]; cbn [alookup map fst In]; [discriminate|].
+  destruct (k' =? k) eqn:E; [apply String.eqb_eq in E; auto|auto].
+Qed.
+Lemma load_chain_fixed_returns fs : forall fuel seen path,
+  NoDup seen -> incl seen (map fst fs) -> (List.length fs + 1 <= fuel + List.length seen)%nat ->
+  Returns (load_chain_fixed fuel fs seen path).
+Proof.
+  induction fuel as [|f IH]; intros seen path ND IN L.
+  - cbn [load_chain_fixed]. exfalso. pose proof (NoDup_incl_length ND IN) as B. rewrite map_length in B. lia.
+  - cbn [load_chain_fixed]. destruct (alookup path fs) as [inc|] eqn:A; [|apply returns_err].
+    destruct (existsb (String.eqb path) seen) eqn:E; [apply returns_err|].
+    destruct (inc =? ""); [apply returns_ok|].
+    apply returns_bind; [|intros; apply returns_ok]. apply IH.
+    + constructor; [|exact ND]. intro I. assert (X : existsb (String.eqb path) seen = true).
+      { apply existsb_exists. exists path. split; [exact I|apply String.eqb_refl]. }
+      congruence.
+    + intros x [<-|I]; [eapply alookup_key; eauto|apply IN, I].
+    + cbn [List.length]. lia.
+Qed.
+Lemma load_chain_fixed_same fs : forall fuel seen path l,
+  load_chain fuel fs path = Ok l -> (forall x, In x l -> ~ In x seen) -> NoDup l -> load_chain_fixed fuel fs seen path = Ok l.
+Proof.
+  induction fuel as [|f IH]; intros seen path l H NI ND; [discriminate|].
+  cbn [load_chain load_chain_fixed] in *. destruct (alookup path fs) as [inc|]; [|discriminate].
+  assert (Hp : In path l) by (destruct (inc =? ""); [inversion H; left; reflexivity|destruct (load_chain f fs inc); try discriminate; inversion H; left; reflexivity]).
+  assert (E : existsb (String.eqb path) seen = false).
+  { destruct (existsb (String.eqb path) seen) eqn:X; [|reflexivity]. apply existsb_exists in X. destruct X as (y & I & Ey).
+    apply String.eqb_eq in Ey. subst y. exfalso. exact (NI path Hp I). }
+  rewrite E. destruct (inc =? ""); [exact H|].
+  destruct (load_chain f fs inc) as [r| | |] eqn:R; try discriminate. cbn [rbind] in H. inversion H; subst l.
+  inversion ND as [|? ? Hn Hr]; subst.
+  rewrite (IH (path :: seen) inc r R); [reflexivity| |exact Hr].
+  intros x Ix [<-|I]; [exact (Hn Ix)|]. apply (NI x); [right; exact Ix|exact I].
+Qed.
+Lemma load_chain_fixed_ok fs : forall fuel seen path l, load_chain_fixed fuel fs seen path = Ok l -> load_chain fuel fs path = Ok l.
+Proof.
+  induction fuel as [|f IH]; intros seen path l H; [discriminate|]. cbn [load_chain load_chain_fixed] in *.
+  destruct (alookup path fs) as [inc|]; [|discriminate]. destruct (existsb _ seen); [discriminate|].
+  destruct (inc =? ""); [exact H|]. destruct (load_chain_fixed f fs (path :: seen) inc) as [r| | |] eqn:R; try discriminate.
+  rewrite (IH _ _ _ R). exact H.
+Qed.
